@@ -782,6 +782,45 @@ def check_file_recursion(prog, R):
             if all(g.dominates(tb, cb) for cb in calls):
                 return True
         return False
+    # --- re-expansion of macro results: expand_macros calls itself on what a user macro returned; that recursion is
+    # driven by user code and must be bounded by a depth counter kept in the preprocessor
+    EM = "compiler::preprocessor::Preprocessor::expand_macros"
+    em = pre.get(EM)
+    if em is None:
+        R.viol("R14.c", "R14.c|anchor-lost|expand_macros", "compiler::preprocessor", "anchor lost: Preprocessor::expand_macros")
+    else:
+        efl = Flow(em)
+        errb = set(err_assign_blocks(em))
+        reexp = []
+        for bb, t in em.calls():
+            if callee_of(t) == EM:
+                for a in t["args"][1:]:
+                    l = op_local(a)
+                    if l is not None and efl.derives_from_call(l, lambda c: c == "compiler::clvm::run"):
+                        reexp.append(bb)
+        R.floor("R14.c", "re-expansions of a macro's result", len(reexp), 1, "%s:%s" % (em.file, em.line))
+        for rb in reexp:
+            guarded = False
+            for gb in em.dominators().get(rb, ()):
+                tt = em.term(gb)
+                if tt["k"] != "switch":
+                    continue
+                dl = op_local(tt["discr"])
+                for st in em.blocks[gb]["s"]:
+                    rv = st["rv"]
+                    if st["pl"]["l"] == dl and rv["k"] == "bin" and rv["op"] in ("Ge", "Gt", "Lt", "Le"):
+                        sides = [op_local(rv["a"]), op_local(rv["b"])]
+                        from_self = any(x is not None and 1 in efl.back_pure([x]) and em.local_ty(x) in ("usize", "u32", "u64", "i32") for x in sides)
+                        has_const = op_int(rv["a"]) is not None or op_int(rv["b"]) is not None
+                        # one side of the branch leads to an error without reaching the re-expansion
+                        outs = em.succ(gb)
+                        err_side = [o for o in outs if rb not in em.reachable(o) and (em.reachable(o) & errb)]
+                        if from_self and has_const and err_side:
+                            guarded = True
+            R.check(guarded, "R14.c", "R14.c|bounded-macro-reexpansion", em.loc(rb),
+                    "auto: the re-expansion of a macro's result is dominated by a depth test on a counter of the preprocessor that errors out",
+                    "expand_macros expands the result of a user macro again with no bound on the nesting: a macro whose expansion "
+                    "uses itself ((defmac m () (q . (m)))) recurses until the stack overflows", fn=EM)
     import inline
     for p in sorted(readers):
         g = pre[p]
